@@ -216,6 +216,20 @@ class BaseMDASolver(BaseMDA):
         residual_is_small, max_iter_is_reached = self._warn_convergence_criteria()
         return residual_is_small or max_iter_is_reached
 
+    def _execute_weakly_coupled_disciplines(self) -> None:
+        """Execute the weakly coupled disciplines from the resolved couplings.
+
+        A solver that only resolves the strong couplings stops as soon as these are
+        converged. A weakly coupled discipline listed before the disciplines it
+        depends on has then been executed from the couplings of a previous iteration
+        and its outputs are not consistent with the resolved couplings. The weakly
+        coupled disciplines are thus executed once more, in the order of the coupling
+        graph, so that each of them uses up-to-date input data.
+        """
+        for discipline in self.coupling_structure.weakly_coupled_disciplines:
+            discipline.execute(self.io.data)
+            self.io.data.update(discipline.io.get_output_data())
+
     def _set_resolved_variables(self, resolved_couplings: Iterable[str]) -> None:
         """Set the resolved variables and associated residuals.
 
